@@ -19,7 +19,7 @@ def fmt_float(x):
         mant, exp = r.lower().split('e')
         if '.' not in mant:
             mant += '.0'
-        return '%sE%d' % (mant, int(exp))
+        return '%se%d' % (mant, int(exp))
     return r
 
 
@@ -112,7 +112,7 @@ def referenced_namespaces(obj, schema, acc):
             referenced_namespaces(v, schema, acc)
 
 
-def render_schema(schema, roots=(), route_ns=None, annotations=None, patched=None):
+def render_schema(schema, roots=(), route_ns=None, annotations=None, patched=None, extra_refs=()):
     """schema: name -> def.  Returns list of (filename, text), one file per namespace.
 
     roots: type expressions; each becomes `route probe<i>(T, Void, Void)` in route_ns so that
@@ -137,6 +137,7 @@ def render_schema(schema, roots=(), route_ns=None, annotations=None, patched=Non
                     refs.add(schema[s['sub']]['ns'])
         if ns == route_ns:
             referenced_namespaces(list(roots), schema, refs)
+            referenced_namespaces(list(extra_refs), schema, refs)
         for r in sorted(refs - {ns}):
             lines.append('import %s' % r)
         lines.append('')
